@@ -182,7 +182,10 @@ def check_objective_values(kind, parallel, via):
         out.append(("C05:objective-values:%s:vector-replaced" % kind, "designs now at %r, were %r; %s" % ([tuple(i.vector) for i in batch], want, desc)))
     else:
         for ind in batch:
-            got = [repr(float(x)) for x in ind.costs]
+            try:
+                got = [repr(float(x)) for x in ind.costs]
+            except (TypeError, ValueError):
+                got = [repr(x) for x in ind.costs]
             if got != snap.get(tuple(ind.vector)):
                 out.append(("C05:objective-values:%s:costs-are-not-the-returned-values" % kind, "design %r costs %r, objective returned %r; %s" % (
                     list(ind.vector), got, snap.get(tuple(ind.vector)), desc)))
